@@ -99,6 +99,8 @@ def decode(data: bytes) -> dict:
         ln["s"] = d.i(0, case["nsess"] - 1)
         if d.p(0.1):
             ln["crlf"] = True
+        if d.p(0.2):
+            ln["with_next"] = True      # arrives in one piece with the following line of the same session
         case["lines"].append(ln)
     case["stop_phase"] = d.p(0.3)
     return case
@@ -210,9 +212,28 @@ class C18Engine(Engine):
                             if i in last_help_len and len(wri) < last_help_len.pop(i):
                                 labels.add("help-then-shorter")
 
-            for ln in case["lines"]:
+            lines = list(case["lines"])
+            k = 0
+            while k < len(lines):
+                ln = lines[k]
+                k += 1
                 i = ln["s"] % len(sess)
                 s = sess[i]
+                if ln.get("with_next") and k < len(lines) and lines[k]["s"] % len(sess) == i and ln["kind"] != "blocking":
+                    # two lines in one piece: both are fed before anything runs; the weak per-line oracle applies to the first
+                    nxt = lines[k]
+                    k += 1
+                    labels.add("pipelined-lines")
+                    for x in (ln, nxt):
+                        labels.add("kind:" + x["kind"])
+                        s.feed(x["text"])
+                        pending[i].append(x)
+                    await settle()
+                    collect()
+                    if not s.alive():
+                        fail("session/ended-or-crashed", f"after {ln['text'][:60]!r} + {nxt['text'][:60]!r}: escaped={s.escaped!r}")
+                        return
+                    continue
                 labels.add("kind:" + ln["kind"])
                 nac = not_a_command(ln)
                 before = snapshot(pool, groups) if nac else None
